@@ -16,6 +16,16 @@ extern "C" {
     fn __CPROVER_uninterpreted_fabs(x: f64) -> f64;
     fn __CPROVER_uninterpreted_h_f1(id: u32, x: f64) -> f64;
     fn __CPROVER_uninterpreted_h_f2(id: u32, x: f64, y: f64) -> f64;
+    static mut VH_RANGE_CHECKS: i32;
+}
+
+/// switch on the exp / log range obligations of ksmt/models.c for this harness (overflow of an exponential,
+/// logarithm of an underflowed sum); no effect natively
+pub fn range_checks_on() {
+    #[cfg(kani)]
+    unsafe {
+        VH_RANGE_CHECKS = 1;
+    }
 }
 
 /// "any function": an uninterpreted f64 -> f64 function number `id` (natively a fixed smooth,
